@@ -3,9 +3,7 @@ package main
 import "encoding/json"
 
 func registerC19Ops()                                              {}
-func (w *Worker) runC14Case(idx int64)                             {}
 func (w *Worker) runC19Case(idx int64)                             {}
-func replayC14(raw json.RawMessage) (string, string, error)        { return "", "", nil }
 func replayC19(raw json.RawMessage) (string, string, error)        { return "", "", nil }
 func laneBMain(args []string) int                                  { return 0 }
 func runLaneB(f *commonFlags, scratch string) (map[string]any, []*Violation, int) { return nil, nil, 0 }
